@@ -320,7 +320,46 @@ pub fn job_c01(out_dir: &str, tier: &str, seed: u64) {
             emit(&mut sh, &cfg, &input, &cuts, &mut n);
         }
     }
-    sh.finish(json!({"rule": "inputs: empty, every single fragment of the alphabet, all ordered pairs over a seed-rotated pool, seeded fragment sequences / balanced documents / random bytes, long tokens (100-320 bytes) under 4-7-write schedules with boundaries inside tags, high-byte text in legacy encodings; schedules: single write, every 1-cut, every 2-cut (short inputs), byte-wise, byte-wise with empty writes, leading/trailing empty write, random k-cuts; configurations: 13 observer handler sets x strict x encodings x prealloc. A case is non-trivial when the input is non-empty; distinct = distinct (cfg, projected timeline).",
+    // (5) buffer life cycle, systematically: write 1 ends inside token A (tail buffered), write 2 completes A and ends deep
+    // inside a long token B (buffer partly consumed, long remainder kept), write 3 completes B and ends in text (buffer
+    // emptied), write 4 ends inside token C (buffered again), write 5 the rest; all within the preallocated buffer
+    for (bi, b_kind) in ["name", "attr", "comment"].iter().enumerate() {
+        for blen in [140usize, 200, 400] {
+            let a: &[u8] = b"<a href=x id=first>";
+            let mut btok = Vec::new();
+            match *b_kind {
+                "name" => { btok.push(b'<'); for j in 0..blen { btok.push(b'a' + (j % 26) as u8); } btok.extend_from_slice(b" k=v>"); }
+                "attr" => { btok.extend_from_slice(b"<img alt=\""); for j in 0..blen { btok.push(b'a' + (j % 26) as u8); } btok.extend_from_slice(b"\">"); }
+                _ => { btok.extend_from_slice(b"<!--"); for j in 0..blen { btok.push(b'k' + (j % 5) as u8); } btok.extend_from_slice(b"-->"); }
+            }
+            let c: &[u8] = b"<b class=z data-q='r'>";
+            let mut input = b"pre ".to_vec();
+            let a0 = input.len(); input.extend_from_slice(a);
+            input.extend_from_slice(b"t1");
+            let b0 = input.len(); input.extend_from_slice(&btok);
+            let t0 = input.len(); input.extend_from_slice(b" some text here ");
+            let c0 = input.len(); input.extend_from_slice(c);
+            input.extend_from_slice(b"end</b></a>");
+            for (hi, hs_idx) in [0usize, 1, 2, 6, 12, 5].iter().enumerate() {
+                let (_, hs) = &sets[*hs_idx % sets.len()];
+                for prealloc in [1024usize, 0] {
+                    if prealloc == 0 && (hi + bi) % 2 == 1 { continue; }
+                    let cfg = gen::merge(hs, &json!({"strict": false, "enc": "utf-8", "mem": {"prealloc": prealloc}}));
+                    for c1 in [a0 + 1, a0 + 3, a0 + a.len() - 1] {
+                        for c2 in [b0 + 130, b0 + btok.len() / 2 + 66, b0 + btok.len() - 1] {
+                            for c3 in [t0, t0 + 5] {
+                                for c4 in [c0 + 1, c0 + 2, c0 + 9, c0 + c.len() - 1] {
+                                    if c2 >= t0 { continue; }
+                                    emit(&mut sh, &cfg, &input, &[c1, c2, c3, c4], &mut n);
+                                }
+                            }
+                        }
+                    }
+                }
+            }
+        }
+    }
+    sh.finish(json!({"rule": "inputs: empty, every single fragment of the alphabet, all ordered pairs over a seed-rotated pool, seeded fragment sequences / balanced documents / random bytes, long tokens (100-320 bytes) under 4-7-write schedules with boundaries inside tags, the buffer life cycle (buffered tail -> partly consumed with a long remainder -> emptied -> buffered again) for 3 token kinds x 3 lengths x 6 handler sets x 72 five-write schedules, high-byte text in legacy encodings; schedules: single write, every 1-cut, every 2-cut (short inputs), byte-wise, byte-wise with empty writes, leading/trailing empty write, random k-cuts; configurations: 13 observer handler sets x strict x encodings x prealloc. A case is non-trivial when the input is non-empty; distinct = distinct (cfg, projected timeline).",
         "frag_alphabet": gen::FRAGS.len()}));
 }
 
@@ -499,6 +538,25 @@ fn job_c15_impl(out_dir: &str, tier: &str, seed: u64, only: Option<usize>) {
         dt
     };
     if only.is_none() {
+    // (0) charset declarations of every form and label (also labels that must be refused) with handlers that capture
+    // the tokens after them, meta adjustment on
+    for meta in ["<meta charset=utf-16>", "<meta charset=UTF-16BE>", "<meta charset=iso-2022-jp>", "<meta charset=replacement>", "<meta charset=x-user-defined>",
+                 "<meta http-equiv=content-type content='text/html; charset=utf-16'>", "<meta http-equiv=\"Content-Type\" content=\"text/html;charset=utf-16le\">",
+                 "<meta http-equiv=content-type content='text/html; charset=UTF-16BE'>", "<meta http-equiv=content-type content='text/html; charset=iso-2022-jp'>",
+                 "<meta http-equiv=content-type content='text/html; charset=csiso2022jp'>", "<meta http-equiv=content-type content='charset=replacement'>",
+                 "<meta http-equiv=content-type content='text/html; charset=shift_jis'>", "<meta charset=gb18030>", "<meta http-equiv=refresh content='0; charset=utf-16'>",
+                 "<meta http-equiv=content-type content=''>", "<meta http-equiv=content-type content='charset='>", "<meta charset=''>", "<meta charset>"] {
+        let mut input = b"<p a=b>x\xc3\xa9</p>".to_vec();
+        input.extend_from_slice(meta.as_bytes());
+        input.extend_from_slice("<div id=q>t\u{e9}xt<!--c\u{e9}--><b class=k>y</b></div><meta charset=koi8-r>z".as_bytes());
+        for (si, (_, hs)) in sets.iter().enumerate() {
+            if si % 2 == 1 && si > 6 { continue; }
+            for enc in ["utf-8", "windows-1252"] {
+                let cfg = gen::merge(hs, &json!({"strict": false, "enc": enc, "meta": true}));
+                emit(&mut sh, &cfg, &input, &[rng.below(input.len())], &mut n, true);
+            }
+        }
+    }
     // (1) random bytes, grammar-based and mutated inputs, random settings
     let nsmall = if quick { 6000 } else { 200000 };
     for i in 0..nsmall {
